@@ -247,7 +247,9 @@ def check_grids(res, tier):
              # a slightly disconnected double null gridded as a connected one: the two separatrix values differ, every segment boundary
              # must still be shared by the segments either side of it
              gridlab.tokamak_spec("udn", options={"nx_inter_sep": 0}, extract=["regions", "meshmeta", "eqinfo"]),
-             gridlab.tokamak_spec("ldn", options={"nx_inter_sep": 0}, extract=["regions", "meshmeta", "eqinfo"])]
+             gridlab.tokamak_spec("ldn", options={"nx_inter_sep": 0}, extract=["regions", "meshmeta", "eqinfo"]),
+             gridlab.tokamak_spec("udn", options={"psinorm_sol": 1.1, "psinorm_sol_inner": 1.06}, extract=["regions", "meshmeta", "eqinfo"]),
+             gridlab.tokamak_spec("ldn", options={"psinorm_sol": 1.1, "psinorm_sol_inner": 1.06}, extract=["regions", "meshmeta", "eqinfo"])]
     if tier == "thorough":
         specs += [gridlab.tokamak_spec("cdn", extract=["regions", "meshmeta", "eqinfo"]),
                   gridlab.tokamak_spec("udn", options={"nx_inter_sep": 2, "psi_spacing_separatrix_multiplier": 0.5}, extract=["regions", "meshmeta", "eqinfo"]),
@@ -271,6 +273,14 @@ def check_grids(res, tier):
             if not ((d > 0).all() or (d < 0).all()):
                 res.violation("grid:mono", "psi_vals of region %s not strictly monotone" % rg["name"], spec)
                 ok = False
+            up = rg["connections"].get("upper")
+            if up is not None:
+                pu = np.array(regs[up]["psi_vals"], dtype=float)
+                pw = np.array(pv, dtype=float)
+                if len(pu) != len(pw) or np.max(np.abs(pu - pw)) > 1e-12 * max(1.0, float(np.max(np.abs(pw)))):
+                    dmax = float(np.max(np.abs(pu[:min(len(pu), len(pw))] - pw[:min(len(pu), len(pw))])))
+                    res.violation("grid:y-neighbour", "regions %s and %s are joined in y but have different radial psi grids (max difference %.3g)" % (
+                        rg["name"], regs[up]["name"], dmax), spec)
             out = rg["connections"]["outer"]
             if out is not None and abs(regs[out]["psi_vals"][0] - pv[-1]) > 1e-12 * max(1, abs(pv[-1])):
                 res.violation("grid:shared", "adjoining radial segments %s / %s do not share their boundary value (%r vs %r)" % (
@@ -302,6 +312,73 @@ def check_grids(res, tier):
             res.traces += 1
 
 
+def check_segments(res, tier):
+    """the radial segments the real describeSingleNull / describeDoubleNull hand to segmentsWithPsivals: every segment end that lies on a
+    separatrix carries a gradient, all ends on one separatrix carry the same one (the spacing function has the same gradient on both sides),
+    and the constructed function of each segment realises its requested end values and gradients"""
+    from props import c08_stub
+    from hypnotoad.cases import tokamak
+
+    cap = []
+    orig = tokamak.TokamakEquilibrium.segmentsWithPsivals
+
+    def wrapped(self, segments):
+        cap.append({k: dict(v) for k, v in segments.items()})
+        return orig(self, segments)
+
+    cases = [("lsn", 0.5, 1), ("udn", 0.5, 1), ("ldn", 0.25, 2), ("cdn", 0.5, 0), ("udn", 1.0, 1)]
+    if tier == "thorough":
+        cases += [(k, m, n) for k in ("usn", "udn", "ldn") for m in (2.0, 0.1) for n in (1, 3)] + [("cdn", 2.0, 0), ("lsn", 1.0, 1)]
+    tokamak.TokamakEquilibrium.segmentsWithPsivals = wrapped
+    try:
+        for kind, mult, nis in cases:
+            opts = dict(nx_core=3, nx_sol=4, nx_pf=2, ny_inner_divertor=3, ny_outer_divertor=4, ny_sol=8, finecontour_Nfine=40,
+                        psi_spacing_separatrix_multiplier=mult)
+            if kind in ("udn", "ldn"):
+                opts.update(nx_inter_sep=nis, psinorm_sol=1.2)
+            del cap[:]
+            try:
+                eq = c08_stub.get_equilibrium(kind, opts)
+            except Exception as e:  # explicit refusal
+                res.case(key=("segments-refused", kind, type(e).__name__), nontrivial=False)
+                continue
+            payload = {"kind": kind, "options": opts}
+            res.case(key=("segments", kind, mult, nis), nontrivial=True, sample={"op": "segments of describe*", "kind": kind,
+                                                                                 "psi_spacing_separatrix_multiplier": mult, "nx_inter_sep": nis})
+            ok = True
+            for segs in cap:
+                ends = []  # (psi value, gradient, segment, which end)
+                for name, sg in segs.items():
+                    ends.append((sg["psi_start"], sg.get("grad_start"), name, "start"))
+                    ends.append((sg["psi_end"], sg.get("grad_end"), name, "end"))
+                for s in set(eq.psi_sep):
+                    at = [e for e in ends if e[0] == s]
+                    if len(at) < 2:
+                        continue
+                    gs = [e[1] for e in at]
+                    if any(g is None for g in gs):
+                        res.violation("segments:no-gradient", "%s: segment %s has no gradient prescribed at its %s on the separatrix psi=%r" % (
+                            (kind,) + next((e[2], e[3]) for e in at if e[1] is None) + (s,)), payload)
+                        ok = False
+                    elif max(gs) - min(gs) > 1e-12 * max(abs(g) for g in gs):
+                        res.violation("segments:gradient-jump", "%s (psi_spacing_separatrix_multiplier=%r, nx_inter_sep=%r): the spacing gradients prescribed on the "
+                                      "two sides of the separatrix psi=%r differ: %s" % (kind, mult, nis, s, ", ".join("%s.%s=%.6g" % (e[2], e[3], e[1]) for e in at)), payload)
+                        ok = False
+                for name, sg in segs.items():
+                    fn = call_impl(eq, sg["nx"], sg["psi_start"], sg["psi_end"], sg.get("grad_start"), sg.get("grad_end"))
+                    if not callable(fn):
+                        continue
+                    path = classify(sg["nx"], sg["psi_start"], sg["psi_end"], sg.get("grad_start"), sg.get("grad_end"))
+                    for b in oracle(eq, fn, sg["nx"], sg["psi_start"], sg["psi_end"], sg.get("grad_start"), sg.get("grad_end"), path):
+                        if b[0] != "REFUSED":
+                            res.violation("segments:" + b[0], "%s segment %s: %s" % (kind, name, b[1]), payload)
+                            ok = False
+            if ok:
+                res.traces += 1
+    finally:
+        tokamak.TokamakEquilibrium.segmentsWithPsivals = orig
+
+
 def run(res, tier):
     r = vlib.rng("c09")
     res.rule = ("random (n in 1..200, both orderings of lower/upper, end-gradient ratios 0.05..20 of the mean gradient, a quarter within "
@@ -314,6 +391,7 @@ def run(res, tier):
     check_functions(res, r, 1500 if tier == "quick" else 60000)
     check_make1d(res, r, 200 if tier == "quick" else 5000)
     check_grids(res, tier)
+    check_segments(res, tier)
 
 
 def replay(rep):
